@@ -20,6 +20,7 @@ func init() {
 			"Not decided: wake-up latency of the polling loop, correctness of OBSERVE_SEQNO, cluster-map bookkeeping beyond these checks.",
 		Assumptions: []string{"OBSERVE_SEQNO reports what each copy persisted", "one goroutine per vBucket stream calls the handlers"},
 		Rules: []RuleDef{
+			{ID: "C07.R24", Text: "the gate is in force unless it was configured off: defaulting sets no field that was configured and derives the mitigation switch from nothing else (same rule as C17.R1)", Run: c17r1},
 			{ID: "C07.R1", Text: "gate first: each handler except End/OSOSnapshot calls canForward(own seqNo) before any other effect; canForward waits ⇔ ¬Disabled, result = isControl ∨ ¬needCatchup, needCatchup untouched for control events; the wait loop exits only on checkPersistSeqNo=true", Run: c07r1},
 			{ID: "C07.R2", Text: "checkPersistSeqNo ⇔ seq ≤ persistSeqNo ∨ closed", Run: c07r2},
 			{ID: "C07.R3", Text: "SetPersistSeqNo: threshold' = max(old, new) for new ≠ 0, unchanged for 0; no other writer of the threshold", Run: c07r3},
